@@ -81,15 +81,18 @@ RoundTrips(v) == \A m \in Members(v.cls) : Count(v, m) > 0 => m \in Emitted(v) /
 (***************************************************************************)
 (* Validation variants (C13)                                               *)
 (***************************************************************************)
-Checked == {"dateTime", "boolean", "integer", "nonNegativeInteger", "positiveInteger", "unsignedShort", "duration"}
+Checked == {"dateTime", "boolean", "integer", "nonNegativeInteger", "positiveInteger", "unsignedShort", "duration",
+            "unsignedByte", "unsignedInt", "unsignedLong"}
 WrongOf(t) == CASE t = "dateTime" -> {"text", "badfields", "trailing", "dateonly"}
                 [] t = "boolean" -> {"text"}
                 [] t \in {"integer"} -> {"text", "fraction"}
                 [] t = "nonNegativeInteger" -> {"text", "negative"}
                 [] t = "positiveInteger" -> {"text", "zero"}
-                [] t = "unsignedShort" -> {"text", "negative", "toobig"}
+                [] t \in {"unsignedShort", "unsignedByte", "unsignedInt", "unsignedLong"} -> {"text", "negative", "toobig"}   \* toobig: 2^bits
                 [] t = "duration" -> {"text"}
                 [] OTHER -> {}
+TextType(c) == LET b == Table[c].text_base IN
+               IF b = "datetime" THEN "dateTime" ELSE b
 VaVariants(c) ==
     {[cls |-> c, kind |-> "valid", which |-> "", how |-> ""]}
     \cup {[cls |-> c, kind |-> k, which |-> Attrs(c)[i].member, how |-> ""] :
@@ -102,6 +105,8 @@ VaVariants(c) ==
                    i \in 1..Len(Attrs(c))}
     \cup {[cls |-> c, kind |-> "bad_enum", which |-> Attrs(c)[i].member, how |-> ""] :
              i \in {j \in 1..Len(Attrs(c)) : Attrs(c)[j].enum # <<>>}}
+    \* element text of a checked simple type (the table spells the base with or without a prefix, dateTime also in lower case)
+    \cup {[cls |-> c, kind |-> "bad_text", which |-> "", how |-> w] : w \in WrongOf(TextType(c))}
     \cup (IF Table[c].text_enum # <<>> THEN {[cls |-> c, kind |-> "bad_text_enum", which |-> "", how |-> ""]} ELSE {})
 \* the contract: only the unmodified instance is valid
 MustBeValid(v) == v.kind = "valid"
